@@ -850,7 +850,66 @@ func (r *ruler) v10() {
 		{"CALL", "ToFunction.1", "global value.ErrType", "calling a non-function is a type error"},
 		{"CALL", "=(.ParamCnt(", "global vm.ErrArity", "a wrong argument count is an arity error"},
 		{"ATON", "ToString.1", "global value.ErrType", "aton of a non-string is a type error"},
-		{"MOV", "IsNil#", "global value.ErrNil", "assigning nil is a nil error"},
+	}
+	// MOV: a missing value cannot be assigned to a variable (nil error), but
+	// parking one in the temp register is no assignment: the compiler moves the
+	// left operand of an operator chain there before the right operand runs, and
+	// an error raised at the MOV would come before the right operand's own error
+	// (strict left to right; '(u + (1/0)) * 2' against 'u + (1/0)', defect D36).
+	// The operator that reads the temp register reports the missing operand (A1).
+	{
+		key := r.key("MOV", "error class: assigning a missing value to a variable is a nil error, parking it in the temp register is not")
+		tmpK := fmt.Sprint(r.m.AddrK["AddrTmp"])
+		nErr, nPark := 0, 0
+		var bad *Path
+		why := ""
+		for _, pa := range r.m.Paths["MOV"] {
+			ns := condsWith(pa, "IsNil#")
+			if len(ns) == 0 || !strings.HasSuffix(ns[len(ns)-1], ":= true") {
+				continue
+			}
+			toTmp, decided := false, false
+			for _, c := range pa.Conds {
+				if strings.HasPrefix(c, "==(K1,"+tmpK+") := ") {
+					decided, toTmp = true, strings.HasSuffix(c, ":= true")
+				}
+				if strings.HasPrefix(c, "!=(K1,"+tmpK+") := ") {
+					decided, toTmp = true, strings.HasSuffix(c, ":= false")
+				}
+			}
+			isErr := pa.End == "return"
+			switch {
+			case isErr && !decided:
+				if bad == nil {
+					bad, why = pa, "a missing value ends the run at the MOV whatever the destination is: parked in the temp register it must wait for the operator that reads it, or the error comes before the one the right operand raises"
+				}
+			case isErr && toTmp:
+				if bad == nil {
+					bad, why = pa, "moving a missing value into the temp register ends the run"
+				}
+			case isErr:
+				nErr++
+				if len(pa.Ret) != 2 || absint.Key(pa.Ret[1]) != "global value.ErrNil" {
+					if bad == nil {
+						bad, why = pa, "assigning a missing value to a variable must end the run with the nil error"
+					}
+				}
+			case decided && toTmp:
+				nPark++
+			case decided && !toTmp && pa.End == "next":
+				if bad == nil {
+					bad, why = pa, "a missing value is assigned to a variable without an error"
+				}
+			}
+		}
+		switch {
+		case bad != nil:
+			r.s.Bad("V10", key, r.ppos(bad), why, bad.Describe()...)
+		case nErr == 0 || nPark == 0:
+			r.s.Bad("V10", key, r.pos, fmt.Sprintf("expected error exits for variable destinations and a continuing path for the temp register; found %d / %d", nErr, nPark))
+		default:
+			r.s.OK("V10", key, r.pos, fmt.Sprintf("%d nil-error exits for variable destinations, %d continuing paths into the temp register", nErr, nPark))
+		}
 	}
 	// JMPF / JMPT: a condition that is not a boolean ends the run with the class
 	// the ! operator reports for that operand (value.Not: a missing value is a
